@@ -11,5 +11,5 @@ CLAIM = {
     "engine": "rapidcheck-tape",
     "technique": "property-based testing against a reference model: generated ground-truth models and under-constrained variants, random external markings with declared dependencies, differential comparison of the analysis with and without externals, generated C and Python executed with a recording callback and compared with a re-evaluation of the ground truth",
     "text": "Random exploration of (model, set of removed definitions, set of markings incl. VOI / non-primary / duplicate / foreign, declared dependencies). Oracles: exactly the primary variables of the marked classes are EXTERNAL with one placeholder equation; classes that do not depend on a marked class keep type, equation types and primary variable; the model is valid and of the predicted type when every unknown is marked; messages match the special markings; at every callback invocation the declared dependencies already hold their reference values and external entries hold only callback returns (entries are reset to NaN between methods); all other array entries equal the reference evaluation with the externals bound to the harness-chosen values; C and Python agree. Finds wrong sets / types / messages, dropped or mis-ordered dependencies and wrong values for the generated cases; cannot show absence.",
-    "note": "Trusts the ground-truth generator and evaluator (kit/gt, kit/expr, kit/c20_ref), cc and python3. Declared dependency cycles, NLA systems of which only some unknowns are marked and variants the analyser still reads as valid are excluded (counted). Ordering against an NLA unknown is not observable (unknowns are pre-loaded with the solution). Six listed findings are matched by narrow signatures (known.d/C20.json).",
+    "note": "Trusts the ground-truth generator and evaluator (kit/gt, kit/expr, kit/c20_ref), cc and python3. Declared dependency cycles, NLA systems of which only some unknowns are marked and variants the analyser still reads as valid are excluded (counted). Ordering against an NLA unknown is not observable (unknowns are pre-loaded with the solution). Six listed findings are matched by narrow signatures (known_findings.json).",
 }
